@@ -72,7 +72,7 @@ where
             let (bodies, world) = std::thread::scope(|s| s.spawn(|| mk()).join().expect("world builder panicked"));
             let res = sched::run_one(
                 bodies,
-                RunConfig { prefix: prefix.clone(), max_steps: cfg.max_steps, conflict: conf_arc.clone(), record_trace: std::env::var("KSCHED_TRACE").is_ok(), wall_limit: Duration::from_secs(120) },
+                RunConfig { prefix: prefix.clone(), max_steps: cfg.max_steps, conflict: conf_arc.clone(), record_trace: std::env::var("KSCHED_TRACE").is_ok(), wall_limit: Duration::from_secs(600) },
             );
             out.executions += 1;
             out.points += res.points.len() as u64;
